@@ -414,9 +414,38 @@ def case_library(B, cfg):
                   reduced=[0] if m.n_parameters() > 1 else None)
 
 
+def case_dosed(B, cfg):
+    """library PKPD models with a route of administration (the indirect one
+    adds a dose compartment with two more parameters) and a regimen: the
+    binding of the vector, and of sensitivity subsets through a reduced
+    model, on the modified model"""
+    m = getattr(chi.library.ModelLibrary(), cfg['model'])()
+    if cfg.get('rename_before'):
+        m.set_parameter_names({m.parameters()[-1]: 'renamed early'})
+    m.set_administration('central', direct=cfg['direct'])
+    rename = None
+    if cfg.get('rename_after'):
+        pub = m.parameters()
+        rename = {pub[1]: 'renamed late'}
+        m.set_parameter_names(dict(rename))
+    m.set_dosing_regimen(B.var('dose'), start=B.var('start'),
+                         period=B.var('period'), num=2)
+    n = m.n_parameters()
+    check_binding(B, m, 'dosed', [0.5, 2.0], rename=rename,
+                  reduced=sorted({i % n for i in cfg['reduced']}),
+                  protocol=m.dosing_regimen())
+
+
 def jobs(tier):
     out = []
     q = tier == 'quick'
+    for name in ('one_compartment_pk_model',
+                 'erlotinib_tumour_growth_inhibition_model'):
+        for direct in (True, False):
+            for red in ([0], [1], [0, 2], [1, 3]):
+                out.append(('dosed', 'case_dosed', dict(
+                    model=name, direct=direct, reduced=red,
+                    rename_after=(red == [1, 3])), FACADE))
     for name in ('one_compartment_pk_model',
                  'tumour_growth_inhibition_model_koch',
                  'tumour_growth_inhibition_model_koch_reparametrised',
@@ -449,7 +478,9 @@ def jobs(tier):
 
 
 BOUNDS = dict(
-    quick='4 library models; generated SBML models with 1..3 states in every '
+    quick='4 library models; 2 of them with direct / indirect administration '
+          'and a regimen, 4 fixed-parameter subsets each; generated SBML '
+          'models with 1..3 states in every '
           'declaration order, 0 or 2 literal constants, 0..1 intermediate '
           'variables, with/without a derived constant; a third of the output '
           'selections (size <= 2, states and intermediates), renamings, '
